@@ -69,6 +69,15 @@ CHECKS.update({
         "Counterexamples are replayed through the real Lark grammar.",
    design="3/C16", technique="symbolic execution of the print transformer with symbolic token values (CrossHair/z3), all paths within bounds"),
 })
+CHECKS.update({
+ "C17": dict(
+   text="z3 regular-language queries generated from the live Lark object: for every grammatical match part of <= 7 (thorough 8) "
+        "tokens, over all token texts and all white-space layouts (>= 1 between components), no text has a second reading (different "
+        "token-type sequence or component segmentation) nor a second split into the same token types; models are replayed through the "
+        "real Earley parser. CrossHair obligations for name/qualifier splitting, token callbacks (names, int literals around 2^53) and "
+        "outer comments containing '$'.",
+   design="2.2, 3/C17", engine="E2 z3 queries + E1 crosshair", technique="SMT (z3 regular languages / strings) over the extracted grammar + symbolic execution of token callbacks"),
+})
 NA = {
 }
 def main():
@@ -97,6 +106,7 @@ def main():
                   "source_commits": [], "add_only": True},
         "engines": [
             {"name": "E1 crosshair+z3", "path": "vp/worker.py", "serves_properties": sorted(CHECKS), "kind_free_text": "symbolic execution of csvpath's own python objects; z3 decides every branch and assertion"},
+            {"name": "E2 z3 queries", "path": "harness/c17_grammar.py", "serves_properties": ["C17"], "kind_free_text": "solver queries generated from artefacts compiled into the source (Lark grammar, format literals)"},
         ],
         "checks": checks,
         "notes": "exit 0 discharged / 1 VIOLATION (replayed natively) / 3 inconclusive. known_findings.json lists recorded and fixed defects.",
